@@ -72,15 +72,21 @@ func ruleCode93Checksum(c *Ctx) {
 	}
 	n := NewNormer(c.P)
 	n.BindParams(fn, "content", "maxWeight")
-	// the positional read of the rune slice of the content
+	// the positional read of the rune slice of the content (in getChecksum or a helper it delegates to)
 	var ia *ssa.IndexAddr
-	eachInstr(fn, func(b *ssa.BasicBlock, ins ssa.Instruction) {
-		if x, ok := ins.(*ssa.IndexAddr); ok {
-			if cv, ok := x.X.(*ssa.Convert); ok && isStringType(cv.X.Type()) && n.Norm(cv.X).String() == "content" {
-				ia = x
+	outer := fn
+	var loopSite DeepSite
+	c.P.deepEach(fn, 2, func(s DeepSite) {
+		if x, ok := s.Ins.(*ssa.IndexAddr); ok {
+			if cv, ok := x.X.(*ssa.Convert); ok && isStringType(cv.X.Type()) && n.NormAt(s, cv.X).String() == "content" {
+				ia, loopSite = x, s
 			}
 		}
 	})
+	if ia != nil {
+		fn = loopSite.Fn // the function that contains the weighted-sum loop
+		n.Ctx = loopSite.Path
+	}
 	if ia == nil {
 		c.Check(R, "code93.getChecksum/runes", fn.Pos(), false, "characters read by position from []rune(content)", "no such read (byte offsets or a forward range do not give right-anchored rune positions)")
 		return
@@ -192,14 +198,44 @@ func ruleCode93Checksum(c *Ctx) {
 		}
 	}
 	// result: the character whose value equals total % 47
+	// (when the sum is computed by a helper, its result on the return after the loop is total % 47)
+	helperResult := ""
+	if fn != outer && len(loopSite.Path) == 1 {
+		hc := loopSite.Path[0].(*ssa.Call)
+		for _, ret := range returnsOf(fn) {
+			if hdr.Succs[0].Dominates(ret.Block()) {
+				continue // return from inside the loop (character not encodable)
+			}
+			for k, r := range ret.Results {
+				if pEqual(n.Norm(r), MustRef("total % 47")) {
+					nn := NewNormer(c.P)
+					nn.BindParams(outer, "content", "maxWeight")
+					nn.NoInline[c.P.FuncName(fn)] = true
+					helperResult = nn.Norm(hc).asAtom()
+					if len(ret.Results) > 1 {
+						helperResult = fmt.Sprintf("%s#%d", helperResult, k)
+					}
+				}
+			}
+		}
+	}
+	n.Ctx = nil
 	found := false
-	c.P.deepEach(fn, 2, func(s DeepSite) {
+	c.P.deepEach(outer, 2, func(s DeepSite) {
 		bo, ok := s.Ins.(*ssa.BinOp)
 		if !ok || bo.Op.String() != "==" {
 			return
 		}
 		for _, pair := range [][2]ssa.Value{{bo.X, bo.Y}, {bo.Y, bo.X}} {
-			if !pEqual(n.NormAt(s, pair[0]), MustRef("total % 47")) {
+			if s.Fn == fn && pEqual(n.NormAt(s, pair[0]), MustRef("total % 47")) {
+				// compared directly
+			} else if nn := NewNormer(c.P); helperResult != "" {
+				nn.BindParams(outer, "content", "maxWeight")
+				nn.NoInline[c.P.FuncName(fn)] = true
+				if nn.NormAt(s, pair[0]).String() != helperResult {
+					continue
+				}
+			} else {
 				continue
 			}
 			// the other side: value of the element of a range over the table; the key is returned
@@ -232,11 +268,11 @@ func ruleCode93Checksum(c *Ctx) {
 			c.Check(R, "code93.getChecksum/search-table", bo.Pos(), rng == "global:code93.encodeTable", "searches encodeTable", rng)
 		}
 	})
-	c.Check(R, "code93.getChecksum/result", fn.Pos(), found, "returns the table character whose value is total % 47", fmt.Sprint(found))
+	c.Check(R, "code93.getChecksum/result", outer.Pos(), found, "returns the table character whose value is total % 47", fmt.Sprint(found))
 
 	// EncodeWithColor: C over the data with weights up to 20, then K over data+C with weights up to 15
 	if enc := c.theFunc(R, "code93.EncodeWithColor"); enc != nil {
-		calls := c.P.deepCallsTo(enc, fn)
+		calls := c.P.deepCallsTo(enc, outer)
 		if len(calls) != 2 {
 			c.Check(R, "code93.EncodeWithColor/check-characters", enc.Pos(), false, "two getChecksum calls (C and K)", fmt.Sprint(len(calls)))
 			return
